@@ -325,7 +325,7 @@ func init() {
 				nodeSel: map[string]string{"used": "usage"},
 				funcs: map[string]string{"listInit": "usage", "listFirst": "usage", "listLast": "usage",
 					"listLink2": "usage", "listUnlink": "usage", "listAppend": "usage"},
-				callback: []string{"@.conf.OnDelete"},
+				callback:  []string{"@.conf.OnDelete"},
 				atomic:    true,
 				immutable: map[string]bool{"key": true, "value": true},
 			})
